@@ -18,14 +18,14 @@ def make_sim(P):
 
     L, NH = P["L"], P["H"]
     dx, dy = _Dev("x"), _Dev("y")
-    MSGS = [("a", None), ("b", None), ("c", dx), ("c", dy)]
+    MSGS = [("a", None), ("ab", None), ("c", dx), ("c", dy)]  # "a" is a substring of "ab": a string must not be treated as a collection
     # handler kinds: which (command, obj) pairs a handler matches
     KINDS = [
-        ("a", None, lambda c, o: c == "a"),
-        (["a", "b"], None, lambda c, o: c in ("a", "b")),
+        ("ab", None, lambda c, o: c == "ab"),
+        (["a", "ab"], None, lambda c, o: c in ("a", "ab")),
         ("c", "x", lambda c, o: c == "c" and o is dx),  # name filter
         ("c", lambda m: m.obj is dy, lambda c, o: c == "c" and o is dy),  # callable filter
-        (["b", "c"], None, lambda c, o: c in ("b", "c")),
+        (("a", "c"), None, lambda c, o: c in ("a", "c")),
     ]
 
     def h(p1: int, p2: int, p3: int, p4: int, k1: int, k2: int, k3: int, r1: int, r2: int, r3: int, nh: int, at_end: bool, retv: int) -> str:
@@ -110,8 +110,14 @@ def make_limits(P):
             if v < self.lo or v > self.hi:
                 raise LimitError("out of limits")
 
+    class AsyncChecked(Checked):
+        async def check_value(self, v):
+            self.calls.append(v)
+            if v < self.lo or v > self.hi:
+                raise LimitError("out of limits")
+
     def h(lo: int, hi: int, lo2: int, hi2: int, o1: int, o2: int, o3: int, o4: int, t1: int, t2: int, t3: int, t4: int) -> str:
-        a, b, c = Checked("a", lo, hi), Checked("b", lo2, hi2), _Dev("plain")
+        a, b, c = Checked("a", lo, hi), AsyncChecked("b", lo2, hi2), _Dev("plain")
         ops, ts = [o1, o2, o3, o4][:L], [t1, t2, t3, t4][:L]
         msgs = []
         bad_expected = False
@@ -175,7 +181,7 @@ register(Harness("c32_simulate", "C32", make_sim,
 register(Harness("c32_limits", "C32", make_limits,
                  {"quick": dict(L=3, shards=1, budget_s=200, per_path_s=20), "thorough": dict(L=4, shards=1, budget_s=3000, per_path_s=30)},
                  goals=["out-of-limits", "uncheckable-set"], functions=_fns, opaque_text=True,
-                 symbolic="two limit-checked devices with arbitrary integer limits, one device without check_value; L messages each in "
+                 symbolic="two limit-checked devices (one with a synchronous, one with an async check_value) with arbitrary integer limits, one device without check_value; L messages each in "
                  "{set a, set b (with group), set plain, read, null} with arbitrary integer targets",
-                 out_of_bound="async check_value implementations; real ophyd limits", stubs=["fake Checkable devices raising on lo<=v<=hi violation",
+                 out_of_bound="real ophyd limits", stubs=["fake Checkable devices raising on lo<=v<=hi violation",
                  "text rendering of symbolic numbers is opaque (warning message only)"], require_exhaustive=True))
